@@ -441,7 +441,7 @@ opaque_for($1, $2, &mut self.constant_offsets, &mut values);
 //@dropped load_slice: the body of `for word_offset in (offset..end).step_by(32) { values.push(get_or_initialize(..).clone()) }` is R-LOOP-OPAQUE (StepBy iterator): the range and step expressions are verified as arguments, whatever the body does (incl. any arithmetic added to it) is not; Memory::get_or_initialize (HashMap Entry API, closure, `entry.last().unwrap()`) is an assumed callee without contract — its unwrap relies on the unchecked invariant "every vector in the maps is non-empty"
 //@dropped RSV::new / SymbolicValue::constant_fold / SymbolicValueData::constant_fold: assumed callees; their no-overflow precondition `child_size() + 1` ("fewer than usize::MAX nodes below", proved under that precondition in unit value_size) is not carried to the call sites in load_slice, decompose_size, get_shift, insert_multiplicative_shifts
 //@dropped SymbolicValue::transform_data applied to the enclosing function (R-SELFREF): assumed callee, uninterpreted; SubWordValue::run / MulShiftedValue::run (one line: hand the nested fn to the traversal) are not extracted
-//@dropped TypeCheckerState::{infer, allocate_ty_var}: assumed callees (HashMap/HashSet bookkeeping, `unsafe fn`); infer's precondition "the variable is known" is discharged for the fresh variable and ASSUMED (trait-level precondition of InferenceRule::infer = the typing state's documented invariant) for the variables of the nodes of the value handed to the rule; TypeExpression::packed_of (itertools map_into) assumed with its exact one-line meaning
+//@dropped TypeCheckerState::{infer, allocate_ty_var}: callee stand-ins here (their contracts are PROVED in unit tc_state: C14.tc_state.infer.*, allocate_ty_var.*); infer's precondition "the variable is known" is discharged for the fresh variable and ASSUMED (trait-level precondition of InferenceRule::infer = the typing state's documented invariant) for the variables of the nodes of the value handed to the rule; TypeExpression::packed_of (itertools map_into) assumed with its exact one-line meaning
 //@dropped lift_packed_encodings (src/tc/lift/packed_encoding.rs) is under contract in unit packed_lift (its precondition: sub-words inside the word, shifts <= 256, a Shifted wraps a sub-word, are this unit's postconditions C12.arith.sub_word.region_inside_slot / mul_shifted.shift_inside_slot / mul_shifted.shifts_the_sub_word_operand; that the folded form being a SubWord makes the traversed operand a SubWord rests on the folder and the traversal, both uninterpreted here)
 //@dropped Span::end_bit (`offset + size`), the `ofs + offset` accumulation of abi_type_for_impl (src/tc/mod.rs), MemStoreSize::bits_count, Memory::{store_with_size, load}: not under contract in this unit
 //@dropped which_power_of_2: that the reported k is the base-2 logarithm of the argument is NOT claimed (KnownWord `%`, `/`, `==` are uninterpreted here; DESIGN §5 notes which_power_of_2(10) == Some(3)); only termination, k <= 256 and "0 only for the word 1"
